@@ -92,7 +92,11 @@ func runRules(c *Ctx, rs []*Rule) (all []*Ob, perRule map[string]int) {
 	for _, r := range rs {
 		l := r.Run(c)
 		perRule[r.ID] = len(l)
-		if len(l) < r.Floor && *flagDump && !*flagJSON {
+		if len(l) < r.Floor && *flagDump {
+			if *flagJSON {
+				all = append(all, l...)
+				continue
+			}
 			fmt.Printf("# WARNING rule %s matched %d sites, below its floor %d\n", r.ID, len(l), r.Floor)
 		} else if len(l) < r.Floor {
 			broken("rule %s matched %d sites, below its floor %d (config %s): anchors lost, a vacuous pass is not a pass",
@@ -139,7 +143,7 @@ func runDump() int {
 	for _, id := range ids {
 		fmt.Printf("# %-10s %d obligations\n", id, per[id])
 	}
-	fmt.Printf("# total %d obligations, %d violated\n", len(all), nv)
+	fmt.Printf("# total %d obligations, %d violated (walks given up: %d)\n", len(all), nv, walkGaveUp)
 	return 0
 }
 
@@ -202,6 +206,7 @@ func runProperty(prop, tier string) int {
 	for ci, cfg := range configs {
 		c := loadCtx(*flagRepo, cfg)
 		list, per := runRules(c, rs)
+		relocateKnown(c, list, ff)
 		merge(list, cfg.Name)
 		if ci == 0 {
 			uni.Packages = 1
@@ -379,4 +384,47 @@ func runReplay(path string) int {
 	}
 	fmt.Printf("replay: obligation %s no longer exists on the current tree\n", r.Key)
 	return 0
+}
+
+// relocateKnown: a known finding keyed rule|F|construct that now shows up as
+// rule|H|construct, where H is a helper whose every call chain starts in F
+// (the code was moved into an extracted helper), is still that finding, not a
+// new violation. The obligation's key is rewritten to the listed one.
+func relocateKnown(c *Ctx, list []*Ob, ff *FindingsFile) {
+	for _, o := range list {
+		if o.Verdict == Holds || ff.known(o.Key) != nil {
+			continue
+		}
+		f := c.FnOpt(o.Func)
+		if f == nil {
+			continue
+		}
+		// unique-caller chain of f
+		cur := f
+		for depth := 0; depth < 3; depth++ {
+			sites := c.Callers(cur)
+			if len(sites) == 0 || isExportedRoot(cur) {
+				break
+			}
+			var parent *ssaFunc
+			same := true
+			for _, s := range sites {
+				if parent == nil {
+					parent = s.Caller
+				} else if parent != s.Caller {
+					same = false
+				}
+			}
+			if !same || parent == nil {
+				break
+			}
+			cur = parent
+			alt := o.Rule + "|" + c.fname(cur) + "|" + o.Construct
+			if ff.known(alt) != nil {
+				o.Why += " [moved into helper " + o.Func + ", called only from " + c.fname(cur) + "]"
+				o.Key = alt
+				break
+			}
+		}
+	}
 }
